@@ -286,13 +286,19 @@ func Copy(g orb.Geometry) orb.Geometry {
 	panic("refmodel.Copy: unknown kind")
 }
 
+// BoundRing is the ring a bound denotes, written out from Min and Max (not through the library's own ToRing):
+// Min, (Max.x, Min.y), Max, (Min.x, Max.y), Min - counter-clockwise for a bound with Min <= Max.
+func BoundRing(b orb.Bound) orb.Ring {
+	return orb.Ring{b.Min, {b.Max[0], b.Min[1]}, b.Max, {b.Min[0], b.Max[1]}, b.Min}
+}
+
 // Norm maps a geometry to what the codecs denote: Ring -> Polygon{ring}, Bound -> its polygon, recursively in collections.
 func Norm(g orb.Geometry) orb.Geometry {
 	switch x := g.(type) {
 	case orb.Ring:
 		return orb.Polygon{x}
 	case orb.Bound:
-		return x.ToPolygon()
+		return orb.Polygon{BoundRing(x)}
 	case orb.Collection:
 		if x == nil {
 			return x
